@@ -540,6 +540,7 @@ func applySortSlice(fr *Frame, v *ssa.Call, cc *ssa.CallCommon, a []Term, at Ter
 	heap, es := c.elemHeap(slT.Elem())
 	innerSort := ArraySort(SInt, es)
 	h := c.get(st, heap)
+	preSort := st.clone()
 	oldInner := Select(h, slArr(s), innerSort)
 	newInner := c.fresh("sorted", innerSort)
 	c.permutation(at, oldInner, newInner, slOff(s), slLen(s), es)
@@ -569,8 +570,8 @@ func applySortSlice(fr *Frame, v *ssa.Call, cc *ssa.CallCommon, a []Term, at Ter
 	// determinism side condition (strict weak order that is total on distinct positions) is a separate,
 	// named obligation so that properties can opt in: <fn>/sort#k[total-order]
 	c.sortSeq++
-	if ltij, ok := evalLess(st, i, j); ok {
-		ltji, _ := evalLess(st, j, i)
+	if ltij, ok := evalLess(preSort, i, j); ok {
+		ltji, _ := evalLess(preSort, j, i)
 		goal := mkQuant("forall", []Term{i, j}, fmt.Sprintf("(=> (and (<= 0 %s) (< %s %s) (< %s %s)) (or %s %s))", i.S, i.S, j.S, j.S, slLen(s).S, ltij.S, ltji.S), nil)
 		c.sortTotal = append(c.sortTotal, sortObl{name: fmt.Sprintf("%s/sort#%d[total-order]", funcKey(c.top), c.sortSeq), guard: at, goal: goal,
 			nAsserts: len(c.asserts), cmp: funcKey(cmp), blk: c.curBlk})
@@ -647,9 +648,18 @@ func applyFprint(fr *Frame, v *ssa.Call, cc *ssa.CallCommon, a []Term, at Term, 
 }
 
 func writesStdoutText(fr *Frame, cc *ssa.CallCommon, ws map[string]bool) {
-	for _, g := range []string{"stdoutText", "stderrText", "otherText"} {
-		if cell, ok := fr.c.ghostCell(g); ok {
-			ws[cell] = true
+	name := "stdoutText"
+	if callee := cc.StaticCallee(); callee != nil && strings.HasPrefix(callee.Name(), "Fprint") && len(cc.Args) > 0 {
+		switch writerTarget(cc.Args[0]) {
+		case "stdout":
+			name = "stdoutText"
+		case "stderr":
+			name = "stderrText"
+		default:
+			name = "otherText"
 		}
+	}
+	if cell, ok := fr.c.ghostCell(name); ok {
+		ws[cell] = true
 	}
 }
